@@ -274,6 +274,36 @@ pub fn pattern_regex(p: &PatSpec, is_skip: bool) -> Option<(String, bool, bool)>
     Some((text, unicode, p.ignore_case))
 }
 
+/// Generator-side cost gate: every regex pattern of the definition (inlined twin when it has subpattern references) must
+/// determinize within `limit` bytes of DFA. Patterns beyond that (nested counted repetitions of wide classes overlapping
+/// multi-byte classes) make logos' own determinization take minutes; they are outside the budget of a generated case, not
+/// a verdict. Unparsable patterns pass (the derive rejects them at once).
+pub fn cost_ok(def: &DefSpec, limit: usize) -> bool {
+    for (p, variant) in def.leaves() {
+        let Some((text, unicode, icase)) = pattern_regex(p, variant.is_none()) else { continue };
+        let Ok(hir) = parse_hir(&text, unicode, icase) else { continue };
+        let Ok(nfa) = NFA::compiler().configure(thompson::Config::new().utf8(false).shrink(false).nfa_size_limit(Some(limit))).build_from_hir(&hir) else {
+            return false;
+        };
+        let built = dense::Builder::new()
+            .configure(
+                dense::Config::new()
+                    .accelerate(false)
+                    .minimize(false)
+                    .byte_classes(true)
+                    .match_kind(MatchKind::All)
+                    .start_kind(StartKind::Anchored)
+                    .dfa_size_limit(Some(limit))
+                    .determinize_size_limit(Some(limit)),
+            )
+            .build_from_nfa(&nfa);
+        if built.is_err() {
+            return false;
+        }
+    }
+    true
+}
+
 impl RefLexer {
     pub fn build(def: &DefSpec) -> Result<RefLexer, String> {
         let mut pats = Vec::new();
